@@ -64,6 +64,13 @@ def units(tier):
                 sym = ("cont", "intro", "hole", "cont")[rot % 4]
                 hole = holes[rot % len(holes)] if holes else None
                 us.append(dict(h="fix_prog", prog=p, line=li, j=j, o=o, var=var, sym=sym, hole=hole, std="f2003" if rot % 2 else "f2008", cost=2))
+    # a character literal running over three physical lines (columns 7-72 of the middle line are all
+    # literal text), two symbolic characters in one of the segments, comment lines in between
+    for where in ("first", "mid", "last"):
+        for var in ("plain", "c12", "c23", "both"):
+            for ic in (True, False):
+                for std in (("f2003",) if q else ("f2003", "f2008")):
+                    us.append(dict(h="fix_longlit", where=where, var=var, ic=ic, std=std, cost=2))
     for n in (1, 2, 3):
         us.append(dict(h="detect_fixed", nlines=n, cost=1))
     us.append(dict(h="detect_free", cost=1))
@@ -171,6 +178,58 @@ def fix_prog(ctx):
         ctx.fail("fixed-form rendering rejected (" + t1[0] + ")" + tag)
         return
     ctx.check(C.same_shape(C.shape(t0[1]), C.shape(t1[1])), "fixed-form rendering parses to a different tree" + tag)
+
+
+def fix_longlit(ctx):
+    p = ctx.p
+    C.reset()
+    x = ctx.chars("x", 2, "print")
+    G.require(ctx, api.conj([ch != "'" for ch in x]))
+    seg1 = "Abcdefghij" * 6 + "K"            # 61 characters: columns 12-72 of the first line
+    seg2 = "Lmnopqrstu" * 6 + "Vwxyz."       # 66 characters: columns 7-72 of the middle line
+    seg3 = "end"
+    if p["where"] == "first":
+        seg1 = seg1[:30] + x + seg1[32:]
+    elif p["where"] == "mid":
+        seg2 = seg2[:10] + x + seg2[12:]
+    else:
+        seg3 = "e" + x + "d"
+    intro = ctx.chars("intro", 1, "cC*!")
+    com = intro + " note ' it"
+    out = ["      program pg", "      a = '" + seg1]
+    if p["var"] in ("c12", "both"):
+        out.append(com)
+    out.append("     &" + seg2)
+    if p["var"] in ("c23", "both"):
+        out.append(com)
+    out.append("     &" + seg3 + "'")
+    out += ["      b2 = 1", "      end program pg"]
+    fixed = "\n".join(out) + "\n"
+    canon = "program pg\na = '" + seg1 + seg2 + seg3 + "'\nb2 = 1\nend program pg\n"
+    ctx.observe("fixed", fixed)
+    fmt = get_source_info_str(fixed)
+    ctx.check(not fmt.is_free, "fixed-form source detected as free form")
+    if fmt.is_free:
+        return
+    t0 = C.outcome(lambda: C.parse(canon, p["std"], True))
+    if t0[0] != "ok":
+        ctx.fail("canonical free-form program rejected (" + t0[0] + ")")
+        return
+    C.reset()
+    t1 = C.outcome(lambda: C.parse(fixed, p["std"], p["ic"]))
+    if t1[0] != "ok":
+        ctx.fail("fixed-form rendering rejected (" + t1[0] + ") [literal over three lines]")
+        return
+    a = [l for l in str(t0[1]).split("\n")]
+    b = [l for l in str(t1[1]).split("\n") if l.strip()[1:] != " note ' it"]     # comment lines are printed verbatim
+    same = len(a) == len(b) and api.conj([(u == v) if len(u) == len(v) else False for u, v in zip(a, b)])
+    ctx.check(same, "fixed-form rendering regenerates different statements [literal over three lines]")
+    if not p["ic"]:
+        from fparser.two.utils import walk
+        from fparser.two.Fortran2003 import Comment
+        ncom = len([c for c in walk(t1[1], Comment) if len(c.items[0]) > 0])
+        want = {"plain": 0, "c12": 1, "c23": 1, "both": 2}[p["var"]]
+        ctx.check(ncom == want, "comment lines between the continuation lines of a literal are not kept as comments")
 
 
 def detect_fixed(ctx):
